@@ -147,10 +147,10 @@ Proof.
   - apply (Hd n); [lia|exact Hin].
 Qed.
 
-Lemma strip_minus ds : Forall dig ds -> ds <> [] -> strip (45 :: ds) = 45 :: ds.
+Lemma strip_minus ds : Forall dig ds -> ds <> [] -> strip_int (45 :: ds) = 45 :: ds.
 Proof.
-  intros Hd Hne. unfold strip.
-  assert (Hl : lstrip (45 :: ds) = 45 :: ds) by reflexivity. rewrite Hl.
+  intros Hd Hne. unfold strip_int.
+  assert (Hl : lstrip_int (45 :: ds) = 45 :: ds) by reflexivity. rewrite Hl.
   destruct (last_of_digits _ Hd Hne) as [l [t [Hr Hld]]].
   cbn [rev]. rewrite Hr. change ((l :: t) ++ [45]) with (l :: (t ++ [45])).
   rewrite lstrip_dig by exact Hld.
@@ -158,7 +158,7 @@ Proof.
   rewrite rev_app_distr, rev_involutive. reflexivity.
 Qed.
 
-Lemma py_int_minus ds : strip (45 :: ds) = 45 :: ds -> py_int (45 :: ds) = rmap Z.opp (unsigned_val ds).
+Lemma py_int_minus ds : strip_int (45 :: ds) = 45 :: ds -> py_int (45 :: ds) = rmap Z.opp (unsigned_val ds).
 Proof. intros H. unfold py_int. rewrite H. reflexivity. Qed.
 
 Lemma py_int_neg n : n < 0 -> py_int (str_of_int n) = Ok n.
